@@ -107,4 +107,9 @@ def run(ck, tier):
     ck.floor('R4', n4, 5, 'framer-exception handler paths')
     ck.assume('liveness over all futures, the two-frame bound and boundedness of the backlog are not decided; these are necessary progress conditions per failure kind')
     ck.assume('RTU frames carry no delimiter: resynchronisation inside a byte stream is not decided')
+    from .. import ownership as _own
+    ck.guard(_own.rule_instance_owned, ck, cx, 'R8', _own.FRAMERS[1:4], "the parsed header of one receiver's pending frame is overwritten by another receiver, which then mis-sizes its frames", 3)
+    from ..share import import_findings as _imp
+    ck.rule('R9', 'the serial client discards stale input before every request on every framing (shared with C13 R5)')
+    _imp(ck, 'C13', 'R9', ('R5',), 'noise or an abandoned reply left in the port shifts every later count-based read: the master never resynchronises')
     return cx.idx
